@@ -174,9 +174,21 @@ CLAIMED = {
         "rebuild with a dump after every insert) are dumped with their overflow chains and free list; each dump goes through the "
         "verified checker inside Coq and through independent python checks (exactly one owner per page, one leaf cell per chain, "
         "pages return to the free list, the file does not grow while untouched free pages exist).  Rows larger than a twentieth "
-        "of the page lose pages or alias chains (recorded finding with witness).",
-   note="Trusted: Coq kernel; dump produced by the facade; SQL-level DROP/VACUUM page reuse is only observed through file sizes (C13).",
-   technique="Coq proof (ownership checker soundness) + verified checker evaluated on implementation dumps + independent python ownership oracle",
+        "of the page lose pages or alias chains (recorded finding with witness).  The allocator itself is modelled operation by "
+        "operation (Model/FreeList.v: allocate_page pops the head of the free list or extends the file, dealloc_page appends at "
+        "the tail through the `next` field of the freed pages, head and tail recorded in page zero; a freed B+tree page gets a "
+        "fresh header, a freed overflow page keeps its chain link) and proved, for every sequence of allocations, link writes, "
+        "B+tree page releases and front-to-back chain releases, to keep the free list acyclic with the recorded ends, every page "
+        "owned exactly once, nothing handed out twice (C11_free_list) and to reuse freed pages before the file grows "
+        "(C11_free_pages_reused); the restriction to whole chains is necessary (C11_single_link_release_refuted: releasing the "
+        "first link alone hands out the second while in use - not reachable through the engine, replayed on the pager).  The model "
+        "runs against the real pager after every operation, next to a python queue oracle; SQL histories that drop or empty a "
+        "multi-page table right before VACUUM, reuse the pages and VACUUM again are compared with RefDB.",
+   note="Trusted: Coq kernel; dump produced by the facade; the allocator model covers the pointer surgery of allocate_page / "
+        "dealloc_page and the header reset of MemFrame::dealloc / reinit_as, not the cache traffic around them (C12); that the "
+        "engine releases overflow chains front to back (CellDeallocator) is read from the code and checked by the tree dumps, not "
+        "proved; SQL-level DROP/VACUUM page reuse is observed through answers (sql-reuse) and file sizes (C13), not page dumps.",
+   technique="Coq proof (ownership checker soundness; allocator invariant by induction over operation lists, refutation witness) + verified checker evaluated on implementation dumps + differential correspondence (pager allocator, SQL reuse histories) + independent python oracles",
    design="7 (C11)"),
  "C12": dict(
    text="Props/C12.v: for every cache capacity, every sequence of page allocations, writes, reads, pins, unpins and checkpoints and "
